@@ -66,7 +66,7 @@ class AsyncEngine(BaseEngine):
                     result = await self._trigger(trigger_data)
                     if first_result is self._sentinel:
                         first_result = result
-                except Exception:
+                except BaseException:
                     # Whe clear the queue as we don't have an expected behavior
                     # and cannot keep processing
                     self._external_queue.clear()
